@@ -294,3 +294,19 @@ func readStatuses(dbfile string) map[string]int64 {
 	}
 	return out
 }
+
+// SyncedOf reads the committed sync height from the database (0 if none): the
+// harness never relies on when the daemon updates its in-memory height.
+func SyncedOf(dbfile string) uint32 {
+	db, err := sql.Open("sqlite3", "file:"+dbfile+"?mode=ro&_busy_timeout=10000")
+	if err != nil {
+		return 0
+	}
+	defer db.Close()
+	var data []byte
+	var v uint32
+	if err := db.QueryRow("SELECT value FROM pn_metadata WHERE name='synced'").Scan(&data); err == nil {
+		fmt.Sscanf(string(data), `{"Synced":%d}`, &v)
+	}
+	return v
+}
